@@ -5,7 +5,7 @@
 //   h_e2e consts                          production constants probe (built without overrides)
 #include "wv_ops.h"
 
-static const int seedlens[] = {1, 20, 55, 56, 64, 255, 0, 7};
+static const int seedlens[] = {1, 20, 55, 56, 64, 255, 0, 7, 256, 300};
 
 static int n_aborts = 0;
 static void roundtrip(long id, int T, const std::vector<u8_t> &P, int cm, int hm, const std::vector<u8_t> &key, const std::vector<u8_t> &seed, bool twice, const char *cls)
@@ -59,7 +59,7 @@ int main(int argc, char **argv)
       for (int pr = 0; pr < (all ? 15 : 1); ++pr)
       {
         int cm = all ? pr % 5 : (n + T) % 5, hm = all ? pr / 5 : (n / 5 + T) % 3;
-        int sl = seedlens[(n + pr + T) % 8];
+        int sl = seedlens[(n + pr + T) % 10];
         auto seed = rng.bytes(sl);
         for (auto &c : seed)
           if (c == 0)
